@@ -161,8 +161,29 @@ func writeSkeleton(fn string, c *simCase) error {
 	return nil
 }
 
+// what of a model's three tables goes into a file: 0 = nothing, 1 = the real values, 2 = a decoy (different values,
+// same shape) that ow-sim must not use
+type fileContent struct {
+	structure              bool // /LINKS and batches
+	params, states, inputs int
+}
+
+func decoy(v []float64) []float64 {
+	r := make([]float64, len(v))
+	for i, x := range v {
+		r[i] = x + 1
+	}
+	return r
+}
+
 // writeInputFile writes the complete ow-sim input file for the case.
 func writeInputFile(fn string, c *simCase) (err error) {
+	return writeCaseFile(fn, c, fileContent{structure: true, params: 1, states: 1, inputs: 1})
+}
+
+// writeCaseFile writes one of the files ow-sim reads (structure file, or a separate time-series / parameter /
+// initial-states file).
+func writeCaseFile(fn string, c *simCase, what fileContent) (err error) {
 	defer func() {
 		if r := recover(); r != nil {
 			err = fmt.Errorf("panic while writing %s: %v", fn, r)
@@ -172,12 +193,14 @@ func writeInputFile(fn string, c *simCase) (err error) {
 		return fmt.Errorf("skeleton: %s", err)
 	}
 
-	links := make([]uint32, 0, 10*len(c.Links))
-	for _, l := range c.Links {
-		links = append(links, l[:]...)
-	}
-	if err := writeUint32(fn, "/", "LINKS", links, []int{len(c.Links), 10}); err != nil {
-		return fmt.Errorf("/LINKS: %s", err)
+	if what.structure {
+		links := make([]uint32, 0, 10*len(c.Links))
+		for _, l := range c.Links {
+			links = append(links, l[:]...)
+		}
+		if err := writeUint32(fn, "/", "LINKS", links, []int{len(c.Links), 10}); err != nil {
+			return fmt.Errorf("/LINKS: %s", err)
+		}
 	}
 
 	done := map[string]bool{}
@@ -187,30 +210,52 @@ func writeInputFile(fn string, c *simCase) (err error) {
 		}
 		done[m.Name] = true
 		grp := "/MODELS/" + m.Name
-		if err := writeInt32(fn, grp, "batches", m.Batches, []int{len(m.Batches)}); err != nil {
-			return fmt.Errorf("%s/batches: %s", grp, err)
-		}
-		// parameters: [nParams x nNodes] (transposed w.r.t. the case file)
-		params := make([]float64, m.NP*m.N)
-		for n := 0; n < m.N; n++ {
-			for p := 0; p < m.NP; p++ {
-				params[p*m.N+n] = m.Params[n][p]
+		if what.structure {
+			if err := writeInt32(fn, grp, "batches", m.Batches, []int{len(m.Batches)}); err != nil {
+				return fmt.Errorf("%s/batches: %s", grp, err)
 			}
 		}
-		if err := writeFloat64(fn, grp, "parameters", params, []int{m.NP, m.N}); err != nil {
-			return fmt.Errorf("%s/parameters: %s", grp, err)
-		}
-		states := make([]float64, 0, m.N*m.NS)
-		for n := 0; n < m.N; n++ {
-			states = append(states, m.States[n]...)
-		}
-		if err := writeFloat64(fn, grp, "states", states, []int{m.N, m.NS}); err != nil {
-			return fmt.Errorf("%s/states: %s", grp, err)
-		}
-		if m.HasIn {
-			inputs := make([]float64, 0, m.N*m.NI*c.T)
+		if what.params != 0 {
+			// parameters: [nParams x nNodes] (transposed w.r.t. the case file)
+			params := make([]float64, m.NP*m.N)
 			for n := 0; n < m.N; n++ {
-				inputs = append(inputs, m.Inputs[n]...)
+				for p := 0; p < m.NP; p++ {
+					params[p*m.N+n] = m.Params[n][p]
+				}
+			}
+			if what.params == 2 {
+				params = decoy(params)
+			}
+			if err := writeFloat64(fn, grp, "parameters", params, []int{m.NP, m.N}); err != nil {
+				return fmt.Errorf("%s/parameters: %s", grp, err)
+			}
+		}
+		if what.states != 0 {
+			states := make([]float64, 0, m.N*m.NS)
+			for n := 0; n < m.N; n++ {
+				states = append(states, m.States[n]...)
+			}
+			if what.states == 2 {
+				states = decoy(states)
+			}
+			if err := writeFloat64(fn, grp, "states", states, []int{m.N, m.NS}); err != nil {
+				return fmt.Errorf("%s/states: %s", grp, err)
+			}
+		}
+		if what.inputs == 1 && m.HasIn || what.inputs == 2 {
+			inputs := make([]float64, 0, m.N*m.NI*c.T)
+			if m.HasIn {
+				for n := 0; n < m.N; n++ {
+					inputs = append(inputs, m.Inputs[n]...)
+				}
+			} else {
+				inputs = make([]float64, m.N*m.NI*c.T) // decoy for a model without stored inputs
+				for i := range inputs {
+					inputs[i] = 6
+				}
+			}
+			if what.inputs == 2 {
+				inputs = decoy(inputs)
 			}
 			if err := writeFloat64(fn, grp, "inputs", inputs, []int{m.N, m.NI, c.T}); err != nil {
 				return fmt.Errorf("%s/inputs: %s", grp, err)
